@@ -1037,13 +1037,33 @@ impl Gen {
         let pm = r.pick(&e.pairs[..e.pairs.len().min(8)]).clone();
         let r0 = e.bal(pm.a0, pm.addr);
         let r1 = e.bal(pm.a1, pm.addr);
+        // once a pair's own account holds LP tokens (a mistaken plain transfer, or a provision with the pair as receiver),
+        // every family regularly tries the one forged withdrawal whose final burn could succeed: a cw20 *asset* of the
+        // pair delivering a withdraw hook for no more than that amount
+        {
+            let held = e.bal(A::T(pm.lp), pm.addr);
+            let pair_tok = match (pm.a0, pm.a1) {
+                (A::T(t), A::T(t2)) => Some(if r.chance(1, 2) { t } else { t2 }),
+                (A::T(t), _) | (_, A::T(t)) => Some(t),
+                _ => None,
+            };
+            if held > 0 && family != "factory" && r.chance(1, 12) {
+                if let Some(t) = pair_tok {
+                    let b = e.bal(A::T(t), u);
+                    if b > 0 {
+                        let amt = (held / (1 + r.below(4) as u128)).min(b).max(1);
+                        return Some(Op::TokSend { t, s: u, d: pm.addr, amt, hook: Hook::Withdraw });
+                    }
+                }
+            }
+        }
         let weights: &[(u32, &str)] = match family {
-            "swap" => &[(40, "swap"), (8, "provide"), (4, "withdraw"), (4, "donate"), (6, "forged"), (4, "misc")],
-            "auth" if e.pairs.iter().take(8).any(|pm| e.bal(A::T(pm.lp), pm.addr) > 0) => &[(5, "swap"), (5, "provide"), (20, "auth"), (25, "forged"), (10, "rauth"), (10, "factory"), (5, "donate")],
-            "liquidity" => &[(10, "swap"), (30, "provide"), (25, "withdraw"), (6, "donate"), (4, "forged"), (4, "misc"), (3, "lpmove")],
+            "swap" => &[(40, "swap"), (8, "provide"), (4, "withdraw"), (4, "donate"), (6, "forged"), (4, "misc"), (2, "factory")],
+            "auth" if e.pairs.iter().take(8).any(|pm| e.bal(A::T(pm.lp), pm.addr) > 0) => &[(5, "swap"), (5, "provide"), (20, "auth"), (25, "forged"), (10, "rauth"), (10, "factory"), (5, "donate"), (3, "lpmove")],
+            "liquidity" => &[(10, "swap"), (30, "provide"), (25, "withdraw"), (6, "donate"), (4, "forged"), (4, "misc"), (3, "lpmove"), (3, "factory")],
             "route" => &[(10, "swap"), (4, "provide"), (2, "withdraw"), (45, "route"), (4, "donate"), (6, "rauth"), (8, "misc")],
             "factory" => &[(5, "swap"), (5, "provide"), (30, "factory"), (6, "misc"), (6, "auth")],
-            "auth" => &[(5, "swap"), (5, "provide"), (30, "auth"), (10, "forged"), (10, "rauth"), (10, "factory"), (8, "donate")],
+            "auth" => &[(5, "swap"), (5, "provide"), (30, "auth"), (10, "forged"), (10, "rauth"), (10, "factory"), (8, "donate"), (5, "lpmove")],
             _ => &[(20, "swap"), (15, "provide"), (12, "withdraw"), (15, "route"), (6, "donate"), (6, "forged"), (5, "misc"), (6, "factory"), (5, "auth"), (4, "rauth"), (3, "lpmove")],
         };
         let total: u32 = weights.iter().map(|w| w.0).sum();
@@ -1166,6 +1186,20 @@ impl Gen {
             "forged" => {
                 // when the pair itself holds LP tokens, forged withdraw hooks claim (part of) exactly that amount
                 let held = e.bal(A::T(pm.lp), pm.addr);
+                // targeted: a cw20 *asset* of the pair (not its LP token) delivers a withdraw hook for no more than the
+                // LP amount sitting on the pair's own account — the only forged withdrawal whose final burn could succeed
+                let pair_tok = match (pm.a0, pm.a1) {
+                    (A::T(t), A::T(t2)) => Some(if r.chance(1, 2) { t } else { t2 }),
+                    (A::T(t), _) | (_, A::T(t)) => Some(t),
+                    _ => None,
+                };
+                if held > 0 && r.chance(1, 3) {
+                    if let Some(t) = pair_tok {
+                        let b = e.bal(A::T(t), u);
+                        let amt = (held / (1 + r.below(4) as u128)).min(b).max(1);
+                        return Some(Op::TokSend { t, s: u, d: pm.addr, amt, hook: Hook::Withdraw });
+                    }
+                }
                 let amt = if held > 0 && r.chance(1, 2) { held / (1 + r.below(4) as u128) } else { amt_rel(r, self.unit) };
                 let named = match r.below(3) { 0 => pm.a0, 1 => pm.a1, _ => self.any_asset(e, r) };
                 let hook = match r.below(4) {
